@@ -146,6 +146,7 @@ def shallow_round_factory(tol):
   """helper function for shallow_round (a factory for shallow_round functions)"""
   def around(iterable, tol):
     if isinstance(iterable, float): return round(iterable, tol)
+    if isinstance(iterable, (str, unicode)): return iterable # not a container
     from klepto.tools import isiterable
     if not isiterable(iterable): return iterable
     itype = type(iterable)
